@@ -785,8 +785,12 @@ def krylov(model, sfield, efield, var):
     elif i > 0 or var.ssl_maxit < 1:
         # (SciPy returns info=maxiter if not converged; hence 0 if maxiter=0.)
         var.exit_message = "MAX. ITERATION REACHED, NOT CONVERGED"
-    else:
+    elif var.l2 < var.tol*var.l2_refe:
         var.exit_message = "CONVERGED"
+    else:
+        # SciPy checks its recursively updated residual, which can differ
+        # from the actual residual b-Ax of the returned field.
+        var.exit_message = "NOT CONVERGED (residual of the field above tol)"
     var.cprint(pre+var.exit_message, 2)
 
 
